@@ -29,13 +29,17 @@ MODEL_MAX_NODES = 120
 
 
 class Case:
-    __slots__ = ('abbr', 'cfg', 'exp', 'label', 'why')
+    __slots__ = ('abbr', 'cfg', 'exp', 'label', 'why', 'nodes', 'limit', 'text', 'base')
 
-    def __init__(self, abbr, cfg, exp, label):
+    def __init__(self, abbr, cfg, exp, label, nodes=None, limit=None, text=None, base=None):
         self.abbr = abbr
         self.cfg = cfg
         self.exp = exp        # expected forest, or None: correspondence only (outside the claim)
         self.label = label
+        self.nodes = nodes    # the AST the abbreviation was rendered from (None: written by hand / corpus)
+        self.limit = limit    # the limit M as a number of copies (None: no limit), however the settings spell it
+        self.text = text      # what `$#` stands for
+        self.base = base      # the settings without limit and text
 
 
 def to_json(forest):
@@ -73,20 +77,27 @@ class Gen:
         self.snippets = markup_snippets
         self.names = abbr_gen.safe_names()
 
-    def add(self, nodes, limit, cfg, label, text=None):
-        exp, total = u.expected(nodes, limit, self.inline, text)
-        if u.count_nodes(exp) > 600:
+    def acceptable(self, exp, max_nodes=600):
+        """The expected forest is small enough and names nothing but plain elements (no snippet, no lorem)."""
+        if u.count_nodes(exp) > max_nodes:
             return False
         for nm in u.names_of(exp):
             if nm in self.snippets or nm.lower().startswith('lorem') or nm.lower() in u.UNDOCUMENTED_PARENTS:
                 return False
+        return True
+
+    def add(self, nodes, limit, cfg, label, text=None):
+        exp, total = u.expected(nodes, limit, self.inline, text)
+        if not self.acceptable(exp):
+            return False
+        base = cfg
         cfg = copy.deepcopy(cfg)
         if limit is not None:
             cfg['maxRepeat'] = limit
         if text is not None:
             cfg['text'] = copy.deepcopy(text)
         abbr = u.render(nodes)
-        self.cases.append(Case(abbr, cfg, exp, label))
+        self.cases.append(Case(abbr, cfg, exp, label, nodes=nodes, limit=limit, text=text, base=base))   # generators never touch an AST after adding it
         ctx = self.ctx
         ctx.cover('gen:' + label)
         ctx.cover('depth:%d' % min(u.max_depth_of(nodes), 7))
@@ -640,6 +651,293 @@ def after_rejected(ctx, cases):
     ctx.cov['after_rejected_sequences'] = n
 
 
+# ---------------------------------------------------------------- the limit as settings deliver it, on every route
+# The statement speaks of "a maxRepeat limit M": M is a number of copies.  Settings reach the library from JSON / YAML /
+# an editor bridge, so the same M arrives as 2 or as 2.0, and under either spelling the library reads
+# (`maxRepeat`: README / Emmet config docs; `max_repeat`: the option of emmet.abbreviation.parse, tests/abbreviation/
+# test_convert.py test_limit_unroll, also read from the settings by emmet.markup.parse).
+LIMIT_SPELLINGS = ('maxRepeat', 'max_repeat', 'both')
+LIMIT_SHAPES = ('int', 'float')
+# Entry points of the package that take an abbreviation and settings (emmet/__init__.py): expand with a dict, expand
+# with a Config object, expand_markup, the two documented steps markup_abbreviation + stringify_markup, and the
+# abbreviation-level emmet.abbreviation.parse (the function the theorems are about; observed as a node tree).
+ROUTES = ('expand-dict', 'expand-Config', 'expand-markup', 'two-step', 'abbreviation-parse')
+DELIVERIES = [(sp, sh, rt) for rt in ROUTES for sp in LIMIT_SPELLINGS for sh in LIMIT_SHAPES
+              if (sp, sh, rt) != ('maxRepeat', 'int', 'expand-dict') and not (rt == 'abbreviation-parse' and sp != 'max_repeat')]
+
+
+def spell_limit(base, limit, text, spelling, shape):
+    """The settings `base` plus the limit M written the given way plus the text."""
+    cfg = copy.deepcopy(base)
+    if limit is not None:
+        v = float(limit) if shape == 'float' else int(limit)
+        if spelling in ('maxRepeat', 'both'):
+            cfg['maxRepeat'] = v
+        if spelling in ('max_repeat', 'both'):
+            cfg['max_repeat'] = v
+    if text is not None:
+        cfg['text'] = copy.deepcopy(text)
+    return cfg
+
+
+ZZBOOM = 'ZZBOOM'
+
+
+def _raising_text(text, **kw):
+    """An `output.text` callback of the caller that fails on one marked text and is the identity otherwise."""
+    if ZZBOOM in text:
+        raise RuntimeError('text callback of the caller failed')
+    return text
+
+
+def make_settings(route, cfg, callback=False):
+    """What the caller holds and passes to every call: (object handed to the library, the caller's own dict)."""
+    from emmet.config import Config
+    raw = copy.deepcopy(cfg)
+    if callback:
+        raw.setdefault('options', {})['output.text'] = _raising_text
+    if route == 'abbreviation-parse':
+        raw = {k: v for k, v in raw.items() if k in ('max_repeat', 'text')}
+        return raw, raw
+    if route == 'expand-dict':
+        return raw, raw
+    return Config(raw), raw
+
+
+def call_route(route, abbr, settings):
+    """One call; the settings object is passed as it is (never copied): ('ok', output string | node tree) or a failure."""
+    import emmet
+    from emmet.abbreviation import parse as abbreviation_parse
+    from common import Hang, time_limit
+    from markup_util import CALL_LIMIT_S
+    try:
+        with time_limit(CALL_LIMIT_S):
+            if route in ('expand-dict', 'expand-Config'):
+                return ('ok', emmet.expand(abbr, settings))
+            if route == 'expand-markup':
+                return ('ok', emmet.expand_markup(abbr, settings))
+            if route == 'two-step':
+                return ('ok', emmet.stringify_markup(emmet.markup_abbreviation(abbr, settings), settings))
+            if route == 'abbreviation-parse':
+                return ('ok', abbreviation_parse(abbr, settings))
+            raise ValueError(route)
+    except Hang:
+        return ('hang', CALL_LIMIT_S)
+    except Exception as e:  # noqa
+        return classify_exc(e)
+
+
+def tree_diff(exp, nodes, path=''):
+    """The abbreviation-level node tree against the expected forest: the same number of nodes in the same places,
+    and the same names wherever the abbreviation names the element (an unnamed element gets its name later)."""
+    if len(exp) != len(nodes):
+        return '%s: %d element(s) expected, %d found (%s | %s)' % (
+            path or 'top level', len(exp), len(nodes), ' '.join(e[0] for e in exp)[:120], ' '.join(str(n.name) for n in nodes)[:120])
+    for k, (e, n) in enumerate(zip(exp, nodes)):
+        here = '%s/%s[%d]' % (path, e[0], k)
+        if n.name is not None and n.name != e[0]:
+            return '%s: name %r expected, %r found' % (here, e[0], n.name)
+        bad = tree_diff(e[3], n.children, here)
+        if bad:
+            return bad
+    return None
+
+
+def check_route(route, exp, r):
+    """The property on the result of one call by the given route."""
+    if route != 'abbreviation-parse':
+        return check_output(exp, r)
+    if r[0] != 'ok':
+        return 'emmet.abbreviation.parse did not return a tree: %r' % (r,)
+    return tree_diff(exp, r[1].children)
+
+
+def show_result(r):
+    if r[0] != 'ok':
+        return repr(r)
+    if isinstance(r[1], str):
+        return r[1][:2000]
+
+    def names(ns):
+        return [[n.name, names(n.children)] for n in ns]
+    return json.dumps(names(r[1].children))[:2000]
+
+
+def limit_delivery(ctx, g):
+    """Every generated abbreviation with a limit once more with the limit written another way and / or called by
+    another route; abbreviations without a limit by the other routes."""
+    with_limit = [c for c in g.cases if c.nodes is not None and c.limit is not None]
+    without = [c for c in g.cases if c.nodes is not None and c.limit is None]
+    if ctx.tier == 'quick':
+        with_limit = with_limit[::max(1, len(with_limit) // 2500)]
+        without = without[::max(1, len(without) // 600)]
+    fails = 0
+    n = 0
+    todo = [(c, DELIVERIES[j % len(DELIVERIES)]) for j, c in enumerate(with_limit)] + \
+           [(c, ('none', 'none', ROUTES[1 + j % (len(ROUTES) - 1)])) for j, c in enumerate(without)]
+    for c, (spelling, shape, route) in todo:
+        cfg = spell_limit(c.base, c.limit, c.text, spelling, shape)
+        settings, _ = make_settings(route, cfg)
+        r = call_route(route, c.abbr, settings)
+        n += 1
+        ctx.count_eval()
+        ctx.cover('delivery:route:' + route)
+        if c.limit is not None:
+            ctx.cover('delivery:limit-spelling:' + spelling)
+            ctx.cover('delivery:limit-shape:' + shape)
+            ctx.cover('delivery:limit-' + ('truncates' if u.total_repeat_copies(c.nodes, c.text) > c.limit else 'not-reached'))
+        bad = check_route(route, c.exp, r)
+        if bad:
+            fails += 1
+            ctx.property_failure('C02:delivery:%s|%s|%s' % (route, c.abbr, canon_cfg(cfg)),
+                                 '%s(%r, %s): %s' % (route, c.abbr, canon_cfg(cfg), bad),
+                                 {'kind': 'delivery', 'route': route, 'abbr': c.abbr, 'config': cfg,
+                                  'expected': to_json(c.exp), 'output': show_result(r), 'why': bad})
+            if fails >= 20:
+                break
+    ctx.cov['limit_delivery_cases'] = n
+
+
+# ---------------------------------------------------------------- one settings object, many calls, some of them failing
+# User snippets the caller's settings may hold: two that work, and broken ones (what a user's snippets file looks like
+# mid-edit) which make a call fail INSIDE snippet resolution.  The names cannot be generated (abbr_gen.PLAIN_NAMES).
+USER_SNIPPETS = {'zzcard': 'div.card>p.t$', 'zzrow': 'b.s$*3>i', 'zzq1': 'a[title="oops', 'zzq2': 'p{x}}',
+                 'zzq3': 'b>i)', 'zzq4': 'b[t=${1', 'zzq5': 'p>zzq1', 'zzq6': 'em{${1:x', 'zzq7': 'li*2>>a'}
+DISTURBANCES = {
+    # kind: (abbreviations, what the settings must hold)
+    'rejected-by-tokenizer': (['a{${1:foo', 'p[title=${1 x}]', 'p{${1', 'a[href=${1', '{${x', 'a{${1:${2}', 'a,b', 'ul>li.c$*3|', 'p.c$*2&'], None),
+    'rejected-by-parser': (['ul>li[title="x', "b[t='", 'a+*3', 'a*2>b)', 'a{x}}', '(a))', 'p*2>q[t="x" "]', 'ul>li*2>>a', 'a]'], None),
+    'unfinished-but-accepted': (['(a>b', 'a{t', 'a[', 'p*2>q{', 'ul>li*3>a['], None),
+    'broken-user-snippet': (['zzq1', 'ul>zzq2', 'zzq3*2', 'p>em+zzq4', 'zzq5.c$*2', '(p>zzq1)*2', 'zzcard>zzq6', 'ul>zzq7'], 'snippets'),
+    'working-user-snippet': (['zzcard*2', 'zzrow', 'ul>zzrow*2'], 'snippets'),
+    'raising-output-callback': (['p{%s}' % ZZBOOM, 'ul>li*2>b{x %s}' % ZZBOOM, 'p[title=%s]{t}+em{%s}*2' % (ZZBOOM, ZZBOOM)], 'callback'),
+}
+SEQ_ROUTES = ('expand-dict', 'expand-Config', 'expand-dict', 'expand-Config', 'expand-markup', 'two-step', 'abbreviation-parse')
+
+
+def run_sequence(route, cfg, callback, calls):
+    """The calls in order on ONE settings object.  calls: [(abbr, expected forest | None = result not judged)].
+    -> (index of the first judged call on which the property fails | None, what fails, results, the caller's dict)."""
+    settings, raw = make_settings(route, cfg, callback)
+    results = []
+    for k, (abbr, exp) in enumerate(calls):
+        r = call_route(route, abbr, settings)
+        results.append(r)
+        if exp is not None:
+            bad = check_route(route, exp, r)
+            if bad:
+                return k, bad, results, raw
+    return None, None, results, raw
+
+
+def reused_settings(ctx, g):
+    """An editor keeps ONE settings object (a dict, or a Config built once) and calls the library with it again and
+    again, catching the errors of the calls that fail.  Every judged call must give what the statement prescribes for
+    its abbreviation and the limit in those settings, whatever was called before with the same object."""
+    rng = ctx.rng
+    pool = {}
+    for c in g.cases:
+        if c.nodes is not None:
+            pool.setdefault(json.dumps(c.text), []).append(c)
+    everything = [c for cs in pool.values() for c in cs]
+    for nm in USER_SNIPPETS:
+        assert nm not in g.names and nm not in g.snippets, nm
+    n_seq = 400 if ctx.tier == 'quick' else 6000
+    fails = 0
+    done = 0
+    for s in range(n_seq):
+        first = rng.choice(everything)
+        group = pool[json.dumps(first.text)]
+        members = [first] + [rng.choice(group) for _ in range(rng.randint(1, 4))]
+        totals = [u.total_repeat_copies(m.nodes, m.text) for m in members]
+        limit = None if rng.random() < 0.12 else rng.randint(1, max(1, rng.choice(totals) + 1))
+        spelling = LIMIT_SPELLINGS[s % 3]
+        shape = LIMIT_SHAPES[(s // 3) % 2]
+        route = SEQ_ROUTES[(s // 6) % len(SEQ_ROUTES)]
+        if route == 'abbreviation-parse':
+            spelling = 'max_repeat'
+        with_snippets = route != 'abbreviation-parse' and rng.random() < 0.75
+        callback = route != 'abbreviation-parse' and rng.random() < 0.3
+        cfg = spell_limit(rng.choice(CONFIGS), limit, first.text, spelling, shape)
+        if with_snippets:
+            cfg['snippets'] = dict(USER_SNIPPETS)
+        kinds = [k for k, (_, needs) in sorted(DISTURBANCES.items())
+                 if needs is None or (needs == 'snippets' and with_snippets) or (needs == 'callback' and callback)]
+        calls = []
+        what = []
+        for m in members:
+            exp, _ = u.expected(m.nodes, limit, g.inline, m.text)
+            if not g.acceptable(exp, 300):
+                continue
+            while rng.random() < (0.75 if not what or what[-1] == 'case' else 0.25):
+                kind = rng.choice(kinds)
+                calls.append((rng.choice(DISTURBANCES[kind][0]), None))
+                what.append(kind)
+            calls.append((m.abbr, exp))
+            what.append('case')
+        if 'case' not in what:
+            continue
+        k, bad, results, raw = run_sequence(route, cfg, callback, calls)
+        done += 1
+        ctx.cover('sequence:route:' + route)
+        ctx.cover('sequence:limit-spelling:' + (spelling if limit is not None else 'none'))
+        ctx.cover('sequence:limit-shape:' + (shape if limit is not None else 'none'))
+        ctx.cover('sequence:text:' + ('none' if first.text is None else 'lines' if isinstance(first.text, list) else 'string'))
+        for w, r in zip(what, results):
+            ctx.count_eval()
+            if w == 'case':
+                ctx.cover('sequence:judged-call')
+            else:
+                ctx.cover('sequence:%s:%s' % (w, 'raised' if r[0] != 'ok' else 'returned'))
+        for j in range(1, len(results)):
+            if what[j] == 'case' and what[j - 1] != 'case':
+                ctx.cover('sequence:judged-call-after:%s' % what[j - 1])
+        if bad is None:
+            continue
+        # the shortest part of the sequence that still shows it: the call alone, the call before it + the call, all
+        fails += 1
+        tries = [calls[k:k + 1], calls[k - 1:k + 1] if k >= 1 else None, calls[:k + 1]]
+        for t in tries:
+            if not t:
+                continue
+            k2, bad2, res2, raw2 = run_sequence(route, cfg, callback, t)
+            if bad2:
+                calls_min, bad, r_last, raw = t, bad2, res2[-1], raw2
+                break
+        else:
+            calls_min, r_last = calls[:k + 1], results[k]
+        # ... and of the user snippets only those the remaining calls name (directly or through another snippet)
+        cfg_min = cfg
+        if 'snippets' in cfg:
+            keep = {}
+            texts = [a for a, _ in calls_min]
+            while True:
+                more = {nm: body for nm, body in cfg['snippets'].items() if nm not in keep and any(nm in t for t in texts)}
+                if not more:
+                    break
+                keep.update(more)
+                texts.extend(more.values())
+            small = dict(cfg, snippets=keep)
+            if not keep:
+                del small['snippets']
+            k2, bad2, res2, raw2 = run_sequence(route, small, callback, calls_min)
+            if bad2:
+                cfg_min, bad, r_last, raw = small, bad2, res2[-1], raw2
+        cfg = cfg_min
+        now = {key: raw.get(key, '<no longer there>') for key in ('maxRepeat', 'max_repeat', 'text') if key in cfg}
+        story = ' ; then '.join(repr(a) for a, _ in calls_min)
+        ctx.property_failure('C02:sequence:%s|%s|%s|%s' % (route, canon_cfg(cfg), callback, story),
+                             'one settings object %s%s used by route %s for the calls %s: the last call: %s (the caller\'s settings '
+                             'now hold %s)' % (canon_cfg(cfg), ' + a text callback that raises on %s' % ZZBOOM if callback else '',
+                                               route, story, bad, canon_cfg(now)),
+                             {'kind': 'sequence', 'route': route, 'config': cfg, 'callback': callback,
+                              'calls': [[a, to_json(e) if e is not None else None] for a, e in calls_min],
+                              'output': show_result(r_last), 'why': bad})
+        if fails >= 10:
+            break
+    ctx.cov['reused_settings_sequences'] = done
+
+
 def run(ctx):
     ok = ctx.build(['props/C02.vo', 'run/MarkupRun.vo'])
     if ok:
@@ -672,7 +970,20 @@ def run(ctx):
         'into line repeaters. A line repeater is a repeated unit with N = number of non-blank lines (its counter and '
         'the maxRepeat clause as for *N); only generated with a `$#` inside, and with lines every `$#` has one around '
         'it (where the text goes without `$#` is not part of C02). The convert-level model/spec comparison (RepeatRun) '
-        'takes no text: cases with a text are compared through the markup model only.')
+        'takes no text: cases with a text are compared through the markup model only. '
+        'The limit as settings deliver it (stream delivery, oracle only -- the model takes the resolved limit as a natural '
+        'number): the generated cases with a limit once more with the limit spelled maxRepeat / max_repeat / both keys, as '
+        'an int or as the integral float a JSON/YAML bridge hands over (2.0), by every entry point: expand with a dict, expand '
+        'with a Config object, expand_markup, markup_abbreviation + stringify_markup, and emmet.abbreviation.parse with the '
+        'max_repeat option (there the expected forest is compared with the node tree: places and written names); cases '
+        'without a limit by the other routes. One settings object for many calls (stream sequence, oracle only): a dict or a '
+        'Config object built once is passed, uncopied, to 2..5 generated abbreviations (expectation recomputed from the AST for '
+        'the limit of that object: none, or 1..total+1 in every spelling and shape), between them calls the caller catches: '
+        'abbreviations rejected by the tokenizer, rejected by the parser, unfinished but accepted, abbreviations naming a user snippet whose body is broken (unclosed '
+        'quote, brace, group, field; directly and through another snippet: the call fails inside snippet resolution), user '
+        'snippets that work, and an output.text callback of the caller that raises during output; every judged call must '
+        'still show the copies and counters the statement prescribes. A failing sequence is cut down to the call alone / the '
+        'call before it + the call / the prefix, whichever still fails, and that is the replay.')
     g = Gen(ctx)
     g.corpus()
     g.forms()
@@ -687,6 +998,8 @@ def run(ctx):
     jsx_cases(ctx, g)
     impl = run_cases(ctx, model, g.cases)
     after_rejected(ctx, g.cases)
+    limit_delivery(ctx, g)
+    reused_settings(ctx, g)
     run_tokens(ctx, model)
     run_spec(ctx, g.cases)
     # counters and copies observed through lorem word counts (harness/lorem_util.py)
@@ -712,6 +1025,22 @@ def replay(ctx, obj):
         ok = r[0] == 'ok' and any(k == want and [st, en] == rp['span'] for k, st, en in r[1])
         print('tokenize(%r) -> %r\nwanted %r over %r: %s' % (rp['src'], r, want, rp['span'], 'ok' if ok else 'FAILS'))
         return 0 if ok else 1
+    if rp.get('kind') == 'delivery':
+        settings, _ = make_settings(rp['route'], rp['config'])
+        r = call_route(rp['route'], rp['abbr'], settings)
+        bad = check_route(rp['route'], from_json(rp['expected']), r)
+        print('%s(%r, %r) -> %s\n%s' % (rp['route'], rp['abbr'], rp['config'], show_result(r), ('property fails: ' + bad) if bad else 'property holds'))
+        return 1 if bad else 0
+    if rp.get('kind') == 'sequence':
+        calls = [(a, from_json(e) if e is not None else None) for a, e in rp['calls']]
+        k, bad, results, raw = run_sequence(rp['route'], rp['config'], rp.get('callback', False), calls)
+        for (a, e), r in zip(calls, results):
+            print('%s(%r, <the one settings object>) -> %s%s' % (rp['route'], a, show_result(r)[:400], '' if e is not None else '   (not judged)'))
+        print('settings at the start %r%s\nthe caller\'s settings afterwards %r' % (
+            rp['config'], ' + a text callback that raises on %s' % ZZBOOM if rp.get('callback') else '',
+            {key: v for key, v in raw.items() if key not in ('snippets', 'options')}))
+        print(('property fails on call %d: %s' % (k + 1, bad)) if bad else 'property holds')
+        return 1 if bad else 0
     if 'abbr' not in rp or rp.get('expected') is None:
         print('replay names a broken obligation, no input: %s' % str(rp)[:300])
         return 1
